@@ -44,10 +44,13 @@ type law struct {
 }
 
 var laws = map[string]law{
-	"yaml":     {"yaml", "to_yaml | from_yaml | tovalue"},
-	"toml":     {"toml", "to_toml | from_toml | tovalue"},
-	"xml":      {"xml", "to_xml | from_xml({array: true}) | tovalue"},
-	"xmlobj":   {"xmlobj", "to_xml | from_xml | tovalue"},
+	"yaml":   {"yaml", "to_yaml | from_yaml | tovalue"},
+	"toml":   {"toml", "to_toml | from_toml | tovalue"},
+	"xml":    {"xml", "to_xml | from_xml({array: true}) | tovalue"},
+	"xmlobj": {"xmlobj", "to_xml | from_xml | tovalue"},
+	// element ORDER through the object form: array-form tree -> text -> object form with #seq ->
+	// text -> array-form tree must be the original tree (children with interleaved repeated names)
+	"xmlseq":   {"xmlseq", "to_xml | from_xml({seq: true}) | tovalue | to_xml | from_xml({array: true}) | tovalue"},
 	"csv":      {"csv", "to_csv | from_csv | tovalue"},
 	"jqlit":    {"jqlit", "to_jq | from_jq"},
 	"jqlit2":   {"jqlit2", "to_jq({indent: 2}) | from_jq"},
@@ -520,6 +523,31 @@ func xmlTree(r *hlib.Rand, depth int) any {
 	return []any{xmlName(r), attrs, children}
 }
 
+// xmlSeqTree: like xmlTree but child names come from a pool of three, so that siblings with the
+// same name are frequent and interleave (<r><a/><b/><a/><b/></r>), incl. elements ALL of whose
+// children belong to repeated names
+func xmlSeqTree(r *hlib.Rand, depth int, name string) any {
+	var attrs any
+	m := map[string]any{}
+	if r.Intn(3) == 0 {
+		m[xmlName(r)] = xmlText(r)
+	}
+	if r.Intn(2) == 0 {
+		m["#text"] = xmlText(r)
+	}
+	if len(m) > 0 {
+		attrs = m
+	}
+	children := []any{}
+	if depth > 0 {
+		pool := []string{"a", "b", "c"}[:r.Range(1, 3)]
+		for i := r.Range(0, 6); i > 0; i-- {
+			children = append(children, xmlSeqTree(r, depth-1, pool[r.Intn(len(pool))]))
+		}
+	}
+	return []any{name, attrs, children}
+}
+
 func genLaws(cfg hlib.Config, r *hlib.Rand, o *hlib.Out, ev *evaluator) {
 	n := 400
 	if cfg.Thorough() {
@@ -548,6 +576,10 @@ func genLaws(cfg hlib.Config, r *hlib.Rand, o *hlib.Out, ev *evaluator) {
 			}
 		}
 		add("xml", xmlTree(r, r.Range(0, 3)))
+		add("xmlseq", xmlSeqTree(r, r.Range(1, 3), "r"))
+		if k%4 == 0 {
+			add("xml", xmlSeqTree(r, r.Range(1, 3), "r"))
+		}
 		// CSV: rectangular rows of strings
 		rows, cols := r.Range(0, 4), r.Range(1, 4)
 		tbl := make([]any, rows)
@@ -591,7 +623,9 @@ func genLaws(cfg hlib.Config, r *hlib.Rand, o *hlib.Out, ev *evaluator) {
 		}
 		add("jsonf", []any{f, map[string]any{"k": f}})
 	}
-	for _, name := range []string{"yaml", "toml", "xml", "csv", "jqlit", "jqlit2", "jsonind", "urlquery", "jsonf"} {
+	// the pinned interleaving <r><a>1</a><b>2</b><a>3</a><b>4</b></r>
+	add("xmlseq", parseWire("[s72,n,[[s61,{s2374657874:s31},[]],[s62,{s2374657874:s32},[]],[s61,{s2374657874:s33},[]],[s62,{s2374657874:s34},[]]]]"))
+	for _, name := range []string{"yaml", "toml", "xml", "xmlseq", "csv", "jqlit", "jqlit2", "jsonind", "urlquery", "jsonf"} {
 		runLaw(o, ev, name, batch[name])
 	}
 
